@@ -8,9 +8,9 @@ arithmetic; validate_arrays covers every band; true_color alpha/normalisation st
 """
 import ast
 
-from ..backends import backend_paths
+from ..backends import backend_paths, delegation_binding, local_value
 from ..kai import Arr, cond_repr, flatten_and, interpret
-from ..kutil import Spec, approx_equal, const_ratio, offsets, reads_in, show, guard_atoms
+from ..kutil import returned_arrays, Spec, approx_equal, const_ratio, offsets, reads_in, show, guard_atoms
 from ..program import AnalysisIncomplete, Ext, Func, Partial, norm
 from ..sym import App, Rat, Sym, subst, walk_atoms
 
@@ -70,8 +70,12 @@ def kernel_binding(prog, pub, path):
         raise AnalysisIncomplete('%s[%s]: path function unresolved' % (pub.name, path.backend))
     bind = {}
     casts = {}
+    pmap = getattr(path, 'param_map', None)
     for p, a in list(zip(f.params, path.args)) + list(path.keywords.items()):
+        a = local_value(path.scope, a)
         root, cs = band_root(a)
+        if pmap is not None and root is not None:
+            root = pmap.get(root)
         bind[p] = (root, a)
         casts[p] = cs
     if path.backend == 'numpy':
@@ -105,7 +109,7 @@ def analyse_index(prog, rep, pub, path, formula_text):
     entry = '%s[%s]' % (name, path.backend)
     kern, bind, casts, mbcall = kernel_binding(prog, pub, path)
     k = interpret(prog, kern)
-    rets = [v for v, g in k.returns if isinstance(v, Arr)]
+    rets = returned_arrays(k)
     if len(rets) != 1:
         raise AnalysisIncomplete('%s: kernel %s does not return one array' % (entry, kern.qualname))
     out = rets[0]
@@ -324,6 +328,29 @@ def channel_order(prog, f):
                             return r
         return None
     order = [None] * 4
+    for lp in [x for x in f.own_nodes() if isinstance(x, ast.For)]:
+        # for i, band in enumerate((r, g, b)): out[:, :, i] = normalise(band)
+        it = lp.iter
+        if isinstance(it, ast.Call) and norm(it.func) == 'enumerate' and it.args and isinstance(it.args[0], (ast.Tuple, ast.List)) \
+                and isinstance(lp.target, ast.Tuple) and len(lp.target.elts) == 2:
+            iv, bv = [e.id for e in lp.target.elts]
+            start = 0
+            if len(it.args) > 1:
+                try:
+                    start = ast.literal_eval(it.args[1])
+                except Exception:
+                    start = 0
+            for st in lp.body:
+                if isinstance(st, ast.Assign) and isinstance(st.targets[0], ast.Subscript) and isinstance(st.targets[0].slice, ast.Tuple) \
+                        and norm(st.targets[0].slice.elts[-1]) == iv:
+                    for kx, el in enumerate(it.args[0].elts):
+                        if kx + start < 4 and isinstance(el, ast.Name):
+                            import copy
+                            sub = copy.deepcopy(st.value)
+                            for nn in ast.walk(sub):
+                                if isinstance(nn, ast.Name) and nn.id == bv:
+                                    nn.id = el.id
+                            order[kx + start] = resolve(sub)
     for n in f.own_nodes():
         if isinstance(n, ast.Assign) and isinstance(n.targets[0], ast.Subscript) and isinstance(n.targets[0].slice, ast.Tuple):
             elts = n.targets[0].slice.elts
@@ -341,9 +368,16 @@ def check(prog, rep):
         pub = m.funcs.get(name)
         if pub is None:
             raise AnalysisIncomplete('public index %s not found' % name)
-        paths = {p.backend: p for p in backend_paths(prog, pub) if p.backend in ('numpy', 'dask')}
-        if set(paths) != {'numpy', 'dask'}:
-            raise AnalysisIncomplete('%s: numpy/dask paths not both found (%s)' % (name, sorted(paths)))
+        from .C01 import find_dispatch
+        disp = find_dispatch(prog, pub)
+        if disp is None:
+            raise AnalysisIncomplete('%s: numpy/dask dispatch not found' % name)
+        dfunc, paths = disp
+        pmap = delegation_binding(prog, pub, dfunc)
+        if pmap is None:
+            raise AnalysisIncomplete('%s: cannot bind the parameters of %s to the public parameters' % (name, dfunc.qualname))
+        for pth in paths.values():
+            pth.param_map = pmap
         kerns = {}
         bands = set()
         for backend in ('numpy', 'dask'):
